@@ -423,6 +423,12 @@ def emit_method(tr, fam: Family, info, m: str, sig) -> None:
         if not all(t[0] in ("pb", "iter") for _, t in muts):
             bad(None, f"{root}.{m}: a method that changes a table or a collection passed to it")
         info.inout.add(m)
+    env0 = {p: t for p, t in params}
+    ret, muts, env0, pre = py2v.generator_parts(ret, muts, env0)
+    if pre:
+        info.inout.add(m)
+        info.generators = getattr(info, "generators", {})
+        info.generators[m] = env0["ys__"][1]
     groups: dict[int, list[str]] = {}
     bodies: dict[int, str] = {}
     for c in fam.order:
@@ -434,7 +440,7 @@ def emit_method(tr, fam: Family, info, m: str, sig) -> None:
             key = id(r[1])
             if key not in bodies:
                 mode = FamilyMethod(tr, info, ret, fam, muts)
-                bodies[key] = mode.stmts(r[1].body, {p: t for p, t in params})
+                bodies[key] = mode.stmts(r[1].body, dict(env0))
         groups.setdefault(key, []).append(c)
     ps = " ".join(f"({mangle(p)} : {coq_type(t)})" for p, t in params)
     if len(groups) == 1:
@@ -443,7 +449,7 @@ def emit_method(tr, fam: Family, info, m: str, sig) -> None:
         body = f"match {root}_cls_tag self with\n" + "\n".join(
             "| " + " | ".join(fam.tag(c) for c in cs) + f" =>\n{bodies[k]}" for k, cs in groups.items()) + "\nend"
     rt = f"outcome {coq_type(ret)} * {root}" + "".join(f" * {coq_type(t)}" for _, t in muts)
-    tr.out.append(f"Definition {root}_{m} {ps} (self : {root}) : {rt} :=\n{body}.")
+    tr.out.append(f"Definition {root}_{m} {ps} (self : {root}) : {rt} :=\n{pre}{body}.")
 
 
 def const_value(tr: Translator, v: ast.AST):
